@@ -834,6 +834,9 @@ func (p *parser) parseAction(kind string) (Action, *SyntaxError) {
 	if t.kind == tLParen {
 		return Action{}, serr(ReasonOperandParen, "parenthesised action target at %d", t.pos)
 	}
+	if t.kind == tNumber {
+		return Action{}, serr(ReasonBadToken, "bare number %q as action target at %d", t.text, t.pos)
+	}
 	if t.kind != tIdent && t.kind != tAlias {
 		return Action{}, serr(ReasonBadUpdate, "action must start with a path, got %q at %d", t.text, t.pos)
 	}
